@@ -126,6 +126,9 @@ def run_smt(ob: Ob):
         wall_s=round(wall, 3),
     )
     extra = {k: out[k] for k in ("validated", "cross_checked", "witness", "functions") if k in out}
+    if verdict == "unsat" and "disagree:" in str(out.get("detail", "")):
+        # the second solver (cvc5) answered differently on one of the queries: never counted as decided
+        return result(ob, "inconclusive", detail="solvers disagree: " + str(out.get("detail", ""))[:300], **base, **extra)
     if verdict == "unsat":
         return result(ob, "discharged", detail=out.get("detail", "all queries unsat"), **base, **extra)
     if verdict == "sat":
